@@ -7,7 +7,9 @@
   in-place mutation through networkx) is observed by the correspondence runs of the C15 check.
 -/
 import Bridge.Abs
+import Bridge.OrderDefs
 import PtaProofs.Lemmas.Order
+import PtaProofs.Lemmas.OrderMore
 namespace Pta.C15
 open Pta PtaSpec
 
@@ -52,5 +54,222 @@ theorem perm_dir_entries (excl : Str → Bool) (base rootName : Str) (entries en
     (fuel : Nat) (e : Entry) :
     (parseWalk excl base rootName entries fuel e).allModules.Perm (parseWalk excl base rootName entries' fuel e).allModules :=
   Pta.perm_dir_entries_lemma excl base rootName entries entries' h fuel e
+
+/-! ## two scans of the same tree -/
+
+/-- the graph constructor depends on the module list and on the import list only as SETS (any level limit, external
+    modules and dangling import ends allowed), provided every importer is a listed module and every import carries the
+    parent modules of its importee (`importsClosed`; both hold for every scan). A package importing its own direct
+    child is NOT excluded: under `importsClosed` the hierarchy edge wins that collision in every order. -/
+theorem buildGraph_sets (lim : Option Nat) (mods mods' : List Str) (imps imps' : List ImportRec)
+    (hm : ∀ x, x ∈ mods ↔ x ∈ mods') (hi : ∀ x, x ∈ imps ↔ x ∈ imps') (hc : importsClosed mods imps = true) :
+    GraphEquiv (buildGraph mods imps lim) (buildGraph mods' imps' lim) :=
+  Pta.buildGraph_sets_lemma lim mods mods' imps imps' hm hi hc
+
+/-- without the second half of `importsClosed` (an import whose `importeeParents` are not those of its importee) the
+    known last-write-wins collision is order dependent: package `a` imports its direct child `a.b` -/
+theorem buildGraph_sets_counterexample :
+    ¬ GraphEquiv
+      (buildGraph ["a".toList, "a.b".toList, "c".toList] [⟨"a".toList, "a.b".toList, []⟩, absImport "c".toList "a.b".toList] none)
+      (buildGraph ["a".toList, "a.b".toList, "c".toList] [absImport "c".toList "a.b".toList, ⟨"a".toList, "a.b".toList, []⟩] none) := by
+  intro h
+  have := (h.hier "a".toList "a.b".toList).1 (by decide)
+  revert this
+  decide
+
+/-- without the first half (an importer that is not a listed module) node creation by a later import is order dependent -/
+theorem buildGraph_sets_counterexample' :
+    ¬ GraphEquiv (buildGraph ["c".toList] [absImport "a.b".toList "c".toList, absImport "c".toList "a".toList] none)
+      (buildGraph ["c".toList] [absImport "c".toList "a".toList, absImport "a.b".toList "c".toList] none) := by
+  intro h
+  have := (h.succs "c".toList "a".toList).1 (by decide)
+  revert this
+  decide
+
+example : importsClosed ["a".toList, "a.b".toList, "c".toList] [absImport "a".toList "a.b".toList, absImport "c".toList "ext.m".toList] = true := by
+  decide
+
+/-- two scans of the same tree whose directory entries are enumerated in different orders: both raise the same error, or
+    both build graphs with the same nodes, the same hierarchy edges and the same import edges. No hypothesis on the
+    tree, the options, the level limit or the import statements. -/
+theorem scan_graph_perm (mt : Str → Str → Bool) (base rootName : Str) (mp : List Str) (entries entries' : List Entry)
+    (o : ScanOptions) (h : entries.Perm entries') :
+    SameScan (generateGraph mt base rootName mp entries o) (generateGraph mt base rootName mp entries' o) :=
+  Pta.scan_graph_perm_lemma mt base rootName mp entries entries' o h
+
+/-- hence every rule has the same verdict on both scans -/
+theorem scan_verdict_perm (mt mt' : Str → Str → Bool) (base rootName : Str) (mp : List Str) (entries entries' : List Entry)
+    (o : ScanOptions) (h : entries.Perm entries') (g g' : PGraph Str)
+    (hg : generateGraph mt base rootName mp entries o = .ok g) (hg' : generateGraph mt base rootName mp entries' o = .ok g')
+    (r : RuleState) : verdictOf mt' g r = verdictOf mt' g' r :=
+  Pta.scan_verdict_perm_lemma mt mt' base rootName mp entries entries' o h g g' hg hg' r
+
+namespace Ex
+def e1 : Entry := { rel := ["a.py".toList], isDir := false,
+                    stmts := [.imp ["pkg.sub.b".toList], .impFrom (some "sub".toList) ["b".toList] 1] }
+def e2 : Entry := { rel := ["sub".toList], isDir := true }
+def e3 : Entry := { rel := ["sub".toList, "b.py".toList], isDir := false,
+                    stmts := [.impFrom none ["a".toList] 2, .imp ["os.path".toList]] }
+def opts : ScanOptions := { exclusions := .globs [], excludeExternal := false }
+def nodesOf (x : Except ErrKind (PGraph Str)) : Option (List Str) := match x with | .ok g => some g.nodes | .error _ => none
+end Ex
+
+example : [Ex.e1, Ex.e2, Ex.e3].Perm [Ex.e3, Ex.e2, Ex.e1] :=
+  ((List.Perm.swap _ _ _).trans ((List.Perm.swap _ _ _).cons _)).trans (List.Perm.swap _ _ _)
+
+set_option maxRecDepth 8000 in
+/-- the two enumerations really produce different node LISTS (and both scans succeed, with external modules) -/
+example : Ex.nodesOf (generateGraph (fun _ _ => false) "/r/pkg".toList "pkg".toList [] [Ex.e1, Ex.e2, Ex.e3] Ex.opts) =
+    some ["pkg".toList, "pkg.a".toList, "pkg.sub".toList, "pkg.sub.b".toList, "os.path".toList, "os".toList] ∧
+  Ex.nodesOf (generateGraph (fun _ _ => false) "/r/pkg".toList "pkg".toList [] [Ex.e3, Ex.e2, Ex.e1] Ex.opts) =
+    some ["pkg".toList, "pkg.sub".toList, "pkg.sub.b".toList, "pkg.a".toList, "os.path".toList, "os".toList] := by decide
+
+/-! ## layers -/
+
+/-- the order in which the layers were DEFINED does not matter, provided the layers (regexes expanded over the modules of
+    the graph) do not overlap: no identifier is claimed by two layers with different names. Layer names need not be
+    distinct, `layerOf` may report mismatches, the rule may be unfinished or ill-configured. -/
+theorem perm_layers (mt : Str → Str → Bool) (larch larch' : LArch) (rule : Option RuleState) (g : PGraph Str)
+    (hp : larch.Perm larch') (hd : layersDisjoint mt g.nodes larch = true) :
+    (assertAppliesLayer mt ⟨some larch, rule⟩ g).cls = (assertAppliesLayer mt ⟨some larch', rule⟩ g).cls :=
+  Pta.perm_layers_lemma mt larch larch' rule g hp hd
+
+/-- the finer form: only the mapping that THIS rule uses (the regexes occurring in the rule expanded, all other regex
+    layers contributing nothing) has to be consistent -/
+theorem perm_layers_rule (mt : Str → Str → Bool) (g : PGraph Str) (a a' : LArch) (b : Behavior) (ir : Bool)
+    (ss os : List Filter) (hp : a.Perm a')
+    (hc : (updateLayerMap mt g.nodes a (((ss ++ os).filter (·.isRegex)).map (·.id))).consistent = true) :
+    (matchLayerRule mt g a b ir ss os).cls = (matchLayerRule mt g a' b ir ss os).cls :=
+  Pta.matchLayerRule_perm_layers_lemma mt g a a' b ir ss os hp hc
+
+namespace Ex
+def g : PGraph Str := buildGraph ["x".toList, "y".toList] [absImport "x".toList "y".toList] none
+/-- a regex engine for the examples: the pattern "x|y" matches x and y, every other pattern matches itself only -/
+def mt : Str → Str → Bool := fun r m => if r == "x|y".toList then (m == "x".toList || m == "y".toList) else r == m
+def la : LArch := [("A".toList, [.name "x".toList]), ("B".toList, [.regex "x|y".toList])]
+def lb : LArch := [("B".toList, [.regex "x|y".toList]), ("A".toList, [.name "x".toList])]
+def rule : RuleState := mkRule false false true true false [.name "x".toList] [.regex "x|y".toList]
+def lc : LArch := [("A".toList, [.name "x".toList]), ("B".toList, [.regex "y".toList])]
+def ld : LArch := [("B".toList, [.regex "y".toList]), ("A".toList, [.name "x".toList])]
+def rule2 : RuleState := mkRule false false true true false [.name "x".toList] [.regex "y".toList]
+end Ex
+
+/-- without the hypothesis: module `x` is listed in layer A and matched by the regex of layer B (the builder accepts
+    this); `x` is attributed to the layer defined LAST, so "A should not access B" passes for one definition order
+    and fails for the other -/
+theorem perm_layers_counterexample :
+    runLArch [.layer "A".toList, .containingModules ["x".toList], .layer "B".toList, .matching "x|y".toList] = .ok Ex.la ∧
+    Ex.la.Perm Ex.lb ∧ layersDisjoint Ex.mt Ex.g.nodes Ex.la = false ∧
+    (assertAppliesLayer Ex.mt ⟨some Ex.la, some Ex.rule⟩ Ex.g).cls = .pass ∧
+    (assertAppliesLayer Ex.mt ⟨some Ex.lb, some Ex.rule⟩ Ex.g).cls = .fail :=
+  ⟨by rfl, List.Perm.swap _ _ _, by decide, by decide, by decide⟩
+
+example : Ex.lc.Perm Ex.ld ∧ layersDisjoint Ex.mt Ex.g.nodes Ex.lc = true ∧
+    (assertAppliesLayer Ex.mt ⟨some Ex.lc, some Ex.rule2⟩ Ex.g).cls = .fail ∧
+    (assertAppliesLayer Ex.mt ⟨some Ex.ld, some Ex.rule2⟩ Ex.g).cls = .fail :=
+  ⟨List.Perm.swap _ _ _, by decide, by decide, by decide⟩
+
+/-- the order in which the subject / object filters of a layer rule are listed does not matter (no hypothesis) … -/
+theorem perm_layer_rule_filters (mt : Str → Str → Bool) (g : PGraph Str) (a : LArch) (s o n dir exc : Bool)
+    (subs subs' objs objs' : List Filter) (hs : subs.Perm subs') (ho : objs.Perm objs') :
+    (assertAppliesLayer mt ⟨some a, some (mkRule s o n dir exc subs objs)⟩ g).cls =
+      (assertAppliesLayer mt ⟨some a, some (mkRule s o n dir exc subs' objs')⟩ g).cls :=
+  Pta.perm_layer_rule_filters_lemma mt g a s o n dir exc subs subs' objs objs' hs ho
+
+/-- … and naming the object LAYERS in another order only permutes the filters that `are_named` appends to the rule
+    (or raises the same error), so together with `perm_layer_rule_filters` the order of the object layers is irrelevant -/
+theorem perm_object_layers (a : LArch) (ls ls' : List Str) (h : ls.Perm ls') :
+    match ls.mapM a.get, ls'.mapM a.get with
+    | .ok ms, .ok ms' => ms.flatten.Perm ms'.flatten
+    | .error e, .error e' => e = e'
+    | _, _ => False :=
+  Pta.layers_get_perm_lemma a ls ls' h
+
+/-! ## diagram rules -/
+
+/-- `MultipleRuleApplier`: if no generated rule raises, pass / fail and the collected violation items (as a multiset) do
+    not depend on the order of the rules -/
+theorem applyAll_perm (mt : Str → Str → Bool) (g : PGraph Str) (rules rules' : List RuleState) (hp : rules.Perm rules')
+    (h : ∀ r ∈ rules, ∀ k, (assertApplies mt r g).2 ≠ .err k) :
+    (applyAll mt g rules).cls = (applyAll mt g rules').cls ∧ (∀ k, (applyAll mt g rules).cls ≠ .err k) ∧
+    (applyAll mt g rules).items.Perm (applyAll mt g rules').items :=
+  Pta.applyAll_perm_ok_lemma mt g rules rules' hp h
+
+/-- if some generated rule raises, the result is an error for every order: the error of one of the raising rules (the
+    first in the respective order), hence the same error if all raising rules raise the same kind -/
+theorem applyAll_perm_err (mt : Str → Str → Bool) (g : PGraph Str) (rules rules' : List RuleState) (hp : rules.Perm rules')
+    (h : ∃ r ∈ rules, ∃ k, (assertApplies mt r g).2 = .err k) :
+    ∃ k k', applyAll mt g rules = .err k ∧ applyAll mt g rules' = .err k' ∧
+      (∃ r ∈ rules, (assertApplies mt r g).2 = .err k) ∧ (∃ r ∈ rules, (assertApplies mt r g).2 = .err k') :=
+  Pta.applyAll_perm_err_lemma mt g rules rules' hp h
+
+theorem applyAll_perm_err_same (mt : Str → Str → Bool) (g : PGraph Str) (rules rules' : List RuleState)
+    (hp : rules.Perm rules') (e0 : ErrKind)
+    (h : ∃ r ∈ rules, ∃ k, (assertApplies mt r g).2 = .err k)
+    (hall : ∀ r ∈ rules, ∀ k, (assertApplies mt r g).2 = .err k → k = e0) :
+    applyAll mt g rules = .err e0 ∧ applyAll mt g rules' = .err e0 :=
+  Pta.applyAll_perm_err_same_lemma mt g rules rules' hp e0 h hall
+
+namespace Ex
+def rFail : RuleState := mkRule false false true true false [.name "x".toList] [.name "y".toList]
+def rPass : RuleState := mkRule true false false true false [.name "x".toList] [.name "y".toList]
+def rFail2 : RuleState := mkRule true false false true false [.name "y".toList] [.name "x".toList]
+def rCfg : RuleState := mkRule true false false true false [] [.name "y".toList]
+def rLook : RuleState := mkRule true false false true false [.name "x".toList] [.name "zzz".toList]
+end Ex
+
+example : (applyAll (fun _ _ => false) Ex.g [Ex.rFail, Ex.rPass, Ex.rFail2]).cls = .fail ∧
+    (applyAll (fun _ _ => false) Ex.g [Ex.rFail2, Ex.rPass, Ex.rFail]).cls = .fail ∧
+    (applyAll (fun _ _ => false) Ex.g [Ex.rFail, Ex.rPass, Ex.rFail2]).items ≠
+      (applyAll (fun _ _ => false) Ex.g [Ex.rFail2, Ex.rPass, Ex.rFail]).items := by decide
+
+/-- the error KIND does depend on the order when rules raise different kinds -/
+theorem applyAll_error_kind_counterexample :
+    (applyAll (fun _ _ => false) Ex.g [Ex.rCfg, Ex.rLook]).cls = .err .improperlyConfigured ∧
+    (applyAll (fun _ _ => false) Ex.g [Ex.rLook, Ex.rCfg]).cls = .err .lookupError := by decide
+
+/-! ## diagram lines -/
+
+/-- `PumlParser.parse` is tag slicing followed by the aggregation of the per-line results -/
+theorem pumlParse_aggregate (content : Str) :
+    pumlParse content = (pumlBody (pyStrip content)).map fun body =>
+      pumlAggregate ((splitLines body).flatMap lineModules) ((splitLines body).filterMap lineDependency) :=
+  Pta.pumlParse_aggregate_lemma content
+
+/-- permuting the lines of a diagram body yields the same module SET and the same dependency RELATION, provided no alias
+    is declared twice with different names (alias unification takes the LAST declaration of an alias) -/
+theorem diagram_lines_perm (lines lines' : List Str) (h : lines.Perm lines')
+    (hc : aliasesConsistent (lines.flatMap lineModules) = true) :
+    (∀ x, x ∈ (pumlAggregate (lines.flatMap lineModules) (lines.filterMap lineDependency)).modules ↔
+      x ∈ (pumlAggregate (lines'.flatMap lineModules) (lines'.filterMap lineDependency)).modules) ∧
+    (∀ k v, (pumlAggregate (lines.flatMap lineModules) (lines.filterMap lineDependency)).hasDep k v =
+      (pumlAggregate (lines'.flatMap lineModules) (lines'.filterMap lineDependency)).hasDep k v) :=
+  Pta.diagram_lines_perm_lemma lines lines' h hc
+
+/-- the same at the level of the per-line results -/
+theorem aggregate_perm (modules modules' : List PModule) (rawDeps rawDeps' : List (Str × Str))
+    (hm : modules.Perm modules') (hd : rawDeps.Perm rawDeps') (hc : aliasesConsistent modules = true) :
+    (∀ x, x ∈ (pumlAggregate modules rawDeps).modules ↔ x ∈ (pumlAggregate modules' rawDeps').modules) ∧
+    (∀ k v, (pumlAggregate modules rawDeps).hasDep k v = (pumlAggregate modules' rawDeps').hasDep k v) :=
+  Pta.aggregate_perm_lemma modules modules' rawDeps rawDeps' hm hd hc
+
+namespace Ex
+def l1 : List Str := ["[mod a] as x".toList, "[b] as y".toList, "x --> y".toList, "y --> c".toList]
+def l2 : List Str := ["y --> c".toList, "x --> y".toList, "[b] as y".toList, "[mod a] as x".toList]
+def l3 : List Str := ["[a] as x".toList, "[b] as x".toList, "x --> c".toList]
+def l4 : List Str := ["[b] as x".toList, "[a] as x".toList, "x --> c".toList]
+def agg (ls : List Str) : Parsed' := pumlAggregate (ls.flatMap lineModules) (ls.filterMap lineDependency)
+end Ex
+
+example : aliasesConsistent (Ex.l1.flatMap lineModules) = true ∧ (Ex.agg Ex.l1).modules ≠ (Ex.agg Ex.l2).modules ∧
+    (Ex.agg Ex.l1).hasDep "mod a".toList "b".toList = true ∧ (Ex.agg Ex.l2).hasDep "mod a".toList "b".toList = true := by
+  decide
+
+/-- without the hypothesis: alias `x` declared for `a` and for `b`; the arrow `x --> c` is attributed to whichever
+    declaration comes last -/
+theorem diagram_lines_counterexample :
+    Ex.l3.Perm Ex.l4 ∧ aliasesConsistent (Ex.l3.flatMap lineModules) = false ∧
+    (Ex.agg Ex.l3).hasDep "b".toList "c".toList = true ∧ (Ex.agg Ex.l4).hasDep "b".toList "c".toList = false :=
+  ⟨List.Perm.swap _ _ _, by decide, by decide, by decide⟩
 
 end Pta.C15
